@@ -14,7 +14,7 @@ class FunctionAgent:
     -1 for endOfMibView; ``requestable`` = roots + universe."""
 
     def __init__(self, roots, universe, table, cap, community=b"public",
-                 stop_all_eom=True, empty_at=()):
+                 stop_all_eom=True, empty_at=(), error_at=None):
         self.roots = [tuple(r) for r in roots]
         self.universe = [tuple(u) for u in universe]
         self.requestable = self.roots + self.universe
@@ -24,6 +24,8 @@ class FunctionAgent:
         self.stop_all_eom = stop_all_eom
         self.empty_at = set(empty_at)   # request numbers answered with an empty binding list
         self.empty_sent = 0
+        self.error_at = dict(error_at or {})   # request number -> (error-status, error-index)
+        self.errors_sent = 0
         self.requests = []       # (pdu tag, [oid tuples])
         self.revealed = set()    # OIDs the agent ever returned
         self.unknown_requested = []
@@ -50,6 +52,12 @@ class FunctionAgent:
         self.requests.append((pdu["tag"], oids))
         out = []
         val = (vber.T_INT, b"\x01")
+        if len(self.requests) - 1 in self.error_at:
+            es, ei = self.error_at[len(self.requests) - 1]
+            self.errors_sent += 1
+            return vber.enc_community_message(
+                msg["version"], self.community,
+                vber.enc_pdu(vber.PDU_RESPONSE, pdu["rid"], es, ei, [(o, vber.T_NULL, b"") for o in oids]))
         if len(self.requests) - 1 in self.empty_at:
             self.empty_sent += 1
             return vber.enc_community_message(
